@@ -18,8 +18,8 @@ C_UNSUPPORTED_KINDS = {"vec_in", "vec_out", "vec_inout"}
 def c_callable(f):
     if any(p["kind"] in C_UNSUPPORTED_KINDS for p in f["params"]):
         return False
-    if f["ret"]["kind"] in ("str_val",):
-        return False
+    if f["ret"]["kind"] in ("str_val", "arr_ptr", "vec_val", "str_ptr_own"):
+        return False       # raw pointers / Fortran-facing entry points only: nothing for the C wrapper to release
     return True
 
 
@@ -70,6 +70,8 @@ def gen_call(lib, k, call):
             actual.append(lit(args[n], T))
         elif kd == "implied":
             actual.append("(%s)%d" % (ir.TYPES[T]["c"], len(args[p["of"]])))
+        elif kd == "cls_cptr":
+            actual.append(call["arg_objs"][n])
         elif kd in ("ptr_in", "ptr_inout", "ref_inout"):
             L.append("    %s %s = %s;" % (ir.TYPES[T]["c"], vn, lit(args[n], T)))
             actual.append("&" + vn)
@@ -127,14 +129,22 @@ def gen_call(lib, k, call):
         L.append('    printf("OUT %d"); vf_log_b("ctor_returns_capsule", rvp == &%s_buf); printf("\\n");' % (k, call["obj"]))
         L.append("  }")
         return L
-    if r["kind"] == "val":
+    if r["kind"] in ("cls_ptr", "cls_val"):
+        # documented: a class-typed result is returned through an extra capsule argument
+        ro = call["res_obj"]
+        L.append("    %s%s *rvp = %s(%s);" % (lib["c_prefix"], r["cls"], v["c_name"], ", ".join(actual + ["&" + ro + "_buf"])))
+        L.append("    %s = rvp;" % ro)
+        L.append('    printf("OUT %d"); vf_log_b("associated", rvp == &%s_buf && %s_buf.addr != NULL); printf("\\n"); fflush(stdout);' % (k, ro, ro))
+        L.append("  }")
+        return L
+    if r["kind"] in ("val", "ptr_scalar"):       # +deref(scalar): the C wrapper dereferences (pointers.yaml returnIntScalar)
         L.append("    %s vfret = %s;" % (ir.TYPES[r["T"]]["c"], callexpr))
     elif r["kind"] in ("cstr", "cstr_len", "str_cref", "str_cref_len"):
         L.append("    const char *vfret = %s;" % callexpr)
     else:
         L.append("    %s;" % callexpr)
     L.append('    printf("OUT %d");' % k)
-    if r["kind"] == "val":
+    if r["kind"] in ("val", "ptr_scalar"):
         L.append("    " + print_scalar(r["T"], "ret", "vfret"))
     elif r["kind"] in ("cstr", "cstr_len", "str_cref", "str_cref_len"):
         L.append('    vf_log_s("ret", vfret, -1);')
